@@ -4,31 +4,33 @@ From Coq Require Import ZArith Bool List Arith Lia.
 Import ListNotations.
 Require Import ZV.Model.Struct ZV.Proofs.StructProofs.
 
-Lemma hash_set_typed_spec st i d f v y :
+Lemma hash_set_typed_spec st i d k v y :
   re_defn (i_fac i) = Some d -> forallb (fun ft => wf_ty (snd ft)) d = true -> value_clean st v = true ->
-  hash_set st i (KSym f) v = (VOk, y) ->
-  spec_check st i (KSym f) v = SOk /\ y = spec_set i (KSym f) v.
+  hash_set st i k v = (VOk, y) ->
+  spec_check st i k v = SOk /\ y = spec_set i k v.
 Proof.
   intros D W C H. unfold hash_set, type_check_field in H.
+  destruct k as [f|n|n]; try (rewrite D in H; discriminate).
   rewrite (adopt_typed _ _ _ D) in H. rewrite D in H. unfold spec_check. rewrite D.
   destruct (lookup_field d f) as [dt|] eqn:L; [|discriminate].
-  destruct (check_value st dt v) eqn:CV; inversion H; subst.
-  - rewrite (check_value_conforms st dt v C (lookup_field_wf _ _ _ W L) CV). auto.
+  destruct (check_value st dt v) eqn:CV; try discriminate.
+  - inversion H; subst.
+    rewrite (check_value_conforms st dt v C (lookup_field_wf _ _ _ W L) CV). auto.
   - exfalso. eapply check_value_notsym; eauto.
 Qed.
 
 Lemma hash_set_all_typed_spec st d : forall args i y,
   re_defn (i_fac i) = Some d -> forallb (fun ft => wf_ty (snd ft)) d = true ->
-  (forall k v, In (k, v) args -> value_clean st v = true /\ exists f, k = KSym f) ->
+  (forall k v, In (k, v) args -> value_clean st v = true) ->
   hash_set_all st i args = (VOk, y) -> spec_set_all st i args = (SOk, y).
 Proof.
   induction args as [|[k v] r IH]; simpl; intros i y D W C H.
   - inversion H; auto.
-  - destruct (C k v (or_introl eq_refl)) as [CV [f ->]].
-    destruct (hash_set st i (KSym f) v) as [x y1] eqn:HS.
+  - pose proof (C k v (or_introl eq_refl)) as CV.
+    destruct (hash_set st i k v) as [x y1] eqn:HS.
     destruct x; try discriminate.
     destruct (hash_set_typed_spec _ _ _ _ _ _ D W CV HS) as [S ->]. rewrite S.
-    apply IH; auto.
+    apply IH; auto. intros k0 v0 I. apply (C k0 v0). auto.
 Qed.
 
 (* without a definition (and none to adopt) everything is stored, and the specification agrees *)
@@ -43,7 +45,7 @@ Proof.
     { unfold adopt. rewrite D. destruct (alookup (i_tname i) (st_reg st)) as [e|] eqn:E; auto.
       rewrite (R e eq_refl). auto. }
     assert (HS : hash_set st i k v = (VOk, spec_set i k v)).
-    { unfold hash_set, type_check_field, spec_set. destruct k; auto. rewrite A. rewrite D. auto. }
+    { unfold hash_set, type_check_field, spec_set. destruct k; try (rewrite D; auto; fail). rewrite A. rewrite D. auto. }
     rewrite HS in H.
     assert (S : spec_check st i k v = SOk) by (unfold spec_check; destruct k; rewrite D; auto).
     rewrite S. apply IH; auto.
@@ -71,7 +73,7 @@ Lemma hash_set_keys st i k v y : hash_set st i k v = (VOk, y) ->
 Proof.
   unfold hash_set. destruct (type_check_field st i k v) as [x y0] eqn:T.
   destruct (tcf_fields _ _ _ _ _ _ T) as [F _].
-  destruct x; intros H; inversion H; subst; simpl; rewrite F; split;
+  destruct x; [| |destruct (re_defn (i_fac y0))]; intros H; inversion H; subst; simpl; rewrite F; split;
     try apply fset_has_key; intros; eapply fset_keeps; eauto.
 Qed.
 Lemma hash_set_all_keys st : forall args i y, hash_set_all st i args = (VOk, y) ->
@@ -115,11 +117,7 @@ Proof.
       assert (D0 : re_defn (i_fac i0) = Some d) by (subst i0; auto).
       assert (W : forallb (fun ft => wf_ty (snd ft)) d = true).
       { pose proof (reg_okb_lookup _ _ _ R E) as O. unfold entry_okb in O. rewrite DE in O. auto. }
-      assert (K : forall k v, In (k, v) args -> value_clean st v = true /\ exists f, k = KSym f).
-      { intros k v I. split; [eapply C; eauto|].
-        destruct (hash_set_all_keys _ _ _ _ HA) as [A1 _]. destruct (A1 _ _ I) as [v' I'].
-        eapply check_record_keys; eauto. }
-      rewrite (hash_set_all_typed_spec st d args i0 i D0 W K HA). auto.
+      rewrite (hash_set_all_typed_spec st d args i0 i D0 W C HA). auto.
     + inversion H; subst i1 reg'.
       rewrite (hash_set_all_bare_spec st args i0 i); auto; subst i0; simpl; auto.
       intros e0 E0. rewrite E in E0. inversion E0; subst; auto.
@@ -168,14 +166,13 @@ Proof.
     destruct vd; simpl; try discriminate. intros _.
     rewrite (make_hash_spec _ _ _ _ _ R (forallb_values_clean _ _ CV) M). auto.
   - (* Write *)
-    simpl in C. apply andb_prop in C as [C CT]. apply andb_prop in C as [CK CV].
+    simpl in C. apply andb_prop in C as [CV CT].
     destruct (route_key_ok r k) eqn:RK; simpl; [|discriminate].
     destruct (negb (value_ok st v)); [discriminate|].
     unfold target_typed in CT.
     destruct (alookup id (st_store st)) as [i|] eqn:A; [|discriminate].
     destruct (hash_set st i k v) as [vd i'] eqn:HS. simpl. intros O.
     pose proof (of_verdict_ok _ _ _ _ _ _ HS O). subst vd.
-    destruct k as [f| |]; try discriminate.
     unfold typed_inst in CT. destruct (re_defn (i_fac i)) as [d|] eqn:D; try discriminate.
     destruct (hash_set_typed_spec _ _ _ _ _ _ D (typed_wf _ _ _ _ I A D) CV HS) as [S ->].
     rewrite S. auto.
